@@ -23,7 +23,6 @@ see `AsyncInotifyWrapper.dir_loop`.
 
 import asyncio
 import contextlib
-import contextlib
 import logging
 import sys
 from collections.abc import Generator
@@ -399,19 +398,31 @@ class AsyncInotifyWrapper:
                         with contextlib.suppress(OSError):
                             self.inotify.rm_watch(watch)
                         self.watches[path] = None
+                    if path in self.watches:
+                        # Also when the watch is gone already, because its own IGNORED
+                        # event was handled before this one of the parent directory.
                         self.change_queue.put_nowait((Change.DELETED_PARENT, path))
                 else:
                     paths = [path]
                     while len(paths) > 0:
                         path = paths.pop(0)
-                        if path not in self.watches:
+                        try:
+                            if self.watches.get(path) is None:
+                                # A directory that was once watched gets its watch back
+                                # right away. A directory that is new to StepUp is watched
+                                # as well: it appeared inside a watched directory,
+                                # so a glob pattern may match what it contains,
+                                # just like it would after a restart.
+                                self._install_watch(path)
+                            # Events of files created in this directory may have been missed.
+                            sub_paths = list(path.iterdir())
+                            # The directory itself may be a match of a glob pattern.
+                            self.change_queue.put_nowait((Change.UPDATED, path / ""))
+                        except (FileNotFoundError, NotADirectoryError):
+                            # The directory is gone again, e.g. moved away and back.
+                            self.watches.setdefault(path, None)
                             continue
-                        if self.watches[path] is None:
-                            # When a directory is added that was once watched,
-                            # recreate the watch right away.
-                            self._install_watch(path)
-                        # Events of files created in this directory may have been missed.
-                        for sub_path in path.iterdir():
+                        for sub_path in sub_paths:
                             if sub_path.is_file():
                                 self.change_queue.put_nowait((Change.UPDATED, sub_path))
                             elif sub_path.is_dir():
